@@ -57,6 +57,18 @@ PROBES = [
                                                  "ExtUnit": ["A", {"B": None}, {"C": None}]}},
     {"name": "p_one_tuple", "types": [_e("OneTuple", "external", [_v("A"), _v("B", "newtype", ty=["tuple", [U8]])]), _s("HasOne", [_f("t", ["tuple", [STR]]), _f("e", ["ref", "OneTuple"])])],
      "roots": ["HasOne"], "values": {"HasOne": [{"t": ["x"], "e": "A"}, {"t": [""], "e": {"B": [7]}}]}},
+    # an internally tagged enum that looks adjacently tagged: every struct variant carries one field of the same name,
+    # omitted on the wire when empty / defaulted
+    {"name": "p_lookalike", "types": [_e("Msg", {"internal": "kind"}, [_v("Ping"), _v("Text", "struct", fields=[_f("body", STR)]),
+                                                               _v("Batch", "struct", fields=[_f("body", ["vec", U32], mode="default_skip")]),
+                                                               _v("Count", "struct", fields=[_f("body", I64, mode="default")])])],
+     "roots": ["Msg"], "values": {"Msg": [{"kind": "Ping"}, {"kind": "Text", "body": "hi"}, {"kind": "Batch"}, {"kind": "Batch", "body": [1, 2]},
+                                          {"kind": "Count", "body": 0}, {"kind": "Count", "body": -7}]}},
+    # an untagged enum over integer / optional float / string payloads
+    {"name": "p_num_untagged", "types": [_e("Reading", "untagged", [_v("Count", "newtype", ty=U32), _v("Level", "newtype", ty=["option", ["float", "f64"]]),
+                                                                 _v("Label", "newtype", ty=STR)]),
+                                        _e("Plain", "untagged", [_v("Count", "newtype", ty=U32), _v("Level", "newtype", ty=["float", "f64"]), _v("Label", "newtype", ty=STR)])],
+     "roots": ["Reading", "Plain"], "values": {"Reading": [5, 2.5, None, "x"], "Plain": [5, 2.5, "x"]}},
     {"name": "p_rec_root", "types": [_s("Tree", [_f("v", U8), _f("kids", ["vec", ["ref", "Tree"]]), _f("next", ["option", ["box", ["ref", "Tree"]]])])],
      "roots": ["Tree"], "values": {"Tree": [{"v": 1, "kids": [{"v": 2, "kids": [], "next": None}], "next": {"v": 3, "kids": [], "next": None}}]}},
     {"name": "p_root_enum", "types": [_e("ExtS", "external", [_v("U"), _v("S", "struct", fields=[_f("x", U8)])]), _e("AdjS", {"adjacent": ["t", "c"]}, [_v("U"), _v("S", "struct", fields=[_f("x", U8)])]),
